@@ -195,6 +195,7 @@ def run(ctx):
         ctx.note("isas", names)
         ctx.note("pools", dict((n, {"blocks": [b["mnem"] for b in pools[n]["blocks"]],
                                     "writers_of_global_state_found_by_scan": pools[n]["flagged"],
+                                    "writers_found_by_executing_an_exemplar": pools[n].get("flagged_dynamically", []),
                                     "registers_flagged_dynamically": pools[n]["flagregs"]}) for n in names))
         bases = c10run.build_bases(dict((n, pools[n]) for n in names), wd)
         ctx.count("fresh_interpreters_for_base", sum(len(v) for v in bases.values()))
